@@ -604,6 +604,10 @@ func TestReplay(t *testing.T) {
 	if err != nil {
 		t.Fatal(err)
 	}
+	if cf.Sub == "held" {
+		replayHeld(t, cf)
+		return
+	}
 	var c Case
 	if err := json.Unmarshal(cf.Case, &c); err != nil {
 		t.Fatal(err)
